@@ -5,6 +5,7 @@ import (
 	nurl "net/url"
 	"strings"
 
+	"github.com/go-shiori/dom"
 	distiller "github.com/markusmobius/go-domdistiller"
 	"golang.org/x/net/html"
 )
@@ -157,6 +158,22 @@ func addRenderCases(tr, do *Corr, rep *Report, src string, pageURL *nurl.URL, re
 		if lca.Type != html.ElementNode && len(common) >= 2 {
 			lca = common[len(common)-2]
 			common = common[:len(common)-1]
+		}
+		if lca.Data == "body" {
+			// the body → div step re-parses the serialised children; the model assumes that this
+			// gives the same tree back (up to merged text nodes and trimmed ends), which holds when
+			// serialise → parse → serialise is the identity on this clone; otherwise the HTML parser
+			// restructured it (nested anchors, misplaced table parts, ...) and the case is outside
+			// what the model describes
+			if c := distiller.VerifTreeClone(nodes); c != nil && c.Type == html.ElementNode {
+				inner := dom.InnerHTML(c)
+				div := dom.CreateElement("div")
+				dom.SetInnerHTML(div, inner)
+				if dom.InnerHTML(div) != inner {
+					rep.hist("textrender:body-reparse-restructures(skipped)")
+					continue
+				}
+			}
 		}
 		onChain := map[*html.Node]bool{}
 		for _, c := range common {
